@@ -3349,6 +3349,14 @@ def replace_collection_add_update_with_collection_literal(source: str) -> str:
                 yield m.root, None, transaction
 
         elif core.match_template(assigned_value, ast.Call(func=ast.Name(id="set"))):
+            # set(*z) is not set(z), and the display {*(*z)} would be printed as the dict {**z}
+            if (
+                assigned_value.keywords
+                or len(assigned_value.args) > 1
+                or any(isinstance(arg, ast.Starred) for arg in assigned_value.args)
+            ):
+                continue
+
             if assigned_value.args:
                 elts = [ast.Starred(value=assigned_value.args[0])] + other_elts
             else:
